@@ -328,7 +328,7 @@ Proof.
   intros l l' H. induction H as [|e e' r r' [He [Hk H1]] Hr IH]; intros D D' c.
   - constructor.
   - inversion D as [|? ? De Dr]; subst. inversion D' as [|? ? De' Dr']; subst.
-    cbn [mk_ddes]. rewrite (L01_num _ De), (L01_num _ De'), H1.
+    rewrite (mk_ddes_eq c e r), (mk_ddes_eq c e' r'). cbv zeta. rewrite (L01_num _ De), (L01_num _ De'), H1.
     assert (Hn : dde_name e = dde_name e') by (rewrite <- (dde_name_erase e), He; reflexivity).
     assert (Hf : is_filler e = is_filler e') by (unfold is_filler; rewrite Hn; reflexivity).
     rewrite Hf. destruct (is_filler e'); constructor; try (apply IH; assumption).
@@ -382,11 +382,11 @@ Lemma pop_sim : forall x x' r r' c c',
   end.
 Proof.
   intros x x'. induction r as [|p o IH]; intros [|p' o'] c c' Hc Hr Hn; try discriminate Hr.
-  - cbn [pop]. unfold lv in *. cbn [map npopL] in *.
+  - cbn [pop]. rewrite (pop_test_eq x), (pop_test_eq x'). unfold lv in *. cbn [map npopL] in *.
     destruct (lvl_leb x (dlv (fd c))), (lvl_leb x' (dlv (fd c'))); try discriminate Hn.
     + rewrite !erase_close, Hc. repeat split.
     + repeat split; assumption.
-  - cbn [map] in Hr. apply cons_inj in Hr. destruct Hr as [Hp Ho]. cbn [pop].
+  - cbn [map] in Hr. apply cons_inj in Hr. destruct Hr as [Hp Ho]. cbn [pop]. rewrite (pop_test_eq x), (pop_test_eq x').
     unfold lv in Hn. cbn [map npopL] in Hn.
     destruct (lvl_leb x (dlv (fd c))) eqn:E, (lvl_leb x' (dlv (fd c'))) eqn:E'; try discriminate Hn.
     + injection Hn as Hn.
@@ -653,7 +653,7 @@ Inductive ins_skipped : list entry -> list entry -> Prop :=
 Lemma transparent_mk : forall e c r, transparent e ->
   exists d, mk_ddes c (e :: r) = d :: mk_ddes c r /\ skipped d = true.
 Proof.
-  intros e c r [H1 [H2 H3]]. exists {| de := e; du := dde_name e |}. cbn [mk_ddes]. rewrite H3.
+  intros e c r [H1 [H2 H3]]. exists {| de := e; du := dde_name e |}. rewrite mk_ddes_eq. cbv zeta. rewrite H3.
   rewrite (L01_num _ H1).
   assert (E : (lvl_num (elv e) =? 1)%N = false) by (unfold kept_level in H2; lia).
   rewrite E. split; [reflexivity|].
